@@ -1342,7 +1342,7 @@ fn stream_adversarial(rep: &mut Report, rng: &Rng, thorough: bool) {
         adv.run(rep, "adv.mutated", &site_of(api), api, &s, "mutated valid statement");
     }
     // (d) deep nesting
-    let depths: &[usize] = if thorough { &[10, 63, 64, 65, 66, 200, 1000, 3000, 10000, 100000] } else { &[10, 63, 64, 65, 200, 1000, 10000] };
+    let depths: &[usize] = if thorough { &[10, 63, 64, 65, 66, 200, 1000, 3000, 10000, 100000] } else { &[10, 63, 64, 65, 200, 1000, 3000, 10000] };
     let mut overflow_at: std::collections::BTreeMap<String, usize> = Default::default();
     for (name, open, close, inner) in NEST {
         for &d in depths {
@@ -1373,7 +1373,7 @@ fn stream_adversarial(rep: &mut Report, rng: &Rng, thorough: bool) {
         for &d in depths {
             for closed in [true, false] {
                 let s = nested(open, close, inner, d, closed);
-                let o = adv.run(rep, "adv.deep.stmt", &format!("neumann_parser::Parser::{name}"), "parse_all", &s, &format!("{name} x{d}{}", if closed { "" } else { " unclosed" }));
+                let o = adv.run(rep, "adv.deep.stmt", &format!("neumann_parser::Parser::{}", if name.ends_with("_subquery") { "parse_select_body" } else { name }), "parse_all", &s, &format!("{name} x{d}{}", if closed { "" } else { " unclosed" }));
                 if o.starts_with("died") {
                     let cur = overflow_at.entry(format!("stmt:{name}")).or_insert(d);
                     *cur = (*cur).min(d);
